@@ -83,13 +83,12 @@ def newSubjectAlternativeName (critical : Bool) (names : List GeneralName) : Ext
 
 /-! ### basic constraints -/
 
-/-- `BasicConstraints{IsCa bool optional; Pathlen int optional}`; `pathLen = none` = no constraint.
-    (`optional` omits zero values: a false CA flag, and — in the struct — a zero path length, which is
-    why an explicit zero is written separately.) -/
-def basicConstraintsTlv (isCa : Bool) (pathLen : Option Nat) : Tlv :=
-  tSeq ((if isCa then [tBool true] else []) ++ (match pathLen with | some n => [tInt n] | none => []))
+/-- `BasicConstraints{IsCa bool optional; Pathlen int optional}`: `optional` omits zero values, a
+    false CA flag and a zero path length alike (so `pathLen = 0` means "no constraint" at this level) -/
+def basicConstraintsTlv (isCa : Bool) (pathLen : Nat) : Tlv :=
+  tSeq ((if isCa then [tBool true] else []) ++ (if pathLen = 0 then [] else [tInt pathLen]))
 
-def newBasicConstraints (critical isCa : Bool) (pathLen : Option Nat) : Ext :=
+def newBasicConstraints (critical isCa : Bool) (pathLen : Nat) : Ext :=
   ⟨oidBasicConstraints, critical, (basicConstraintsTlv isCa pathLen).enc⟩
 
 /-! ### checked primitives (Go's marshal returns an error) -/
